@@ -13,8 +13,14 @@ def reply : Res Int → String
   | .error e => "err " ++ e.render
 
 def argOf : Sexp → Option BumpArg
-  | .node [.atom "L", a] => match Cell.parse (match a with | .atom s => s | _ => "") with
+  -- `(L I:us)` a `datetime.timedelta`; `(Lpd I:us)` the same duration as a `pd.Timedelta`, `(Lnp I:us)` as a `np.timedelta64[us|ms|s|m|h|D]`
+  -- (`t + bump` adds exactly that much time for each of them: assumed, sampled - round k3)
+  | .node [.atom "L", a] | .node [.atom "Lpd", a] | .node [.atom "Lnp", a] => match Cell.parse (match a with | .atom s => s | _ => "") with
       | some (.int us) => some (.delta us)
+      | _ => none
+  -- `(NPI <numpy type> I:n)`: the integer held by a numpy scalar of the named width (np.int8 … np.int64)
+  | .node [.atom "NPI", _, a] => match Cell.parse (match a with | .atom s => s | _ => "") with
+      | some (.int n) => some (.int n)
       | _ => none
   | .atom s => match Cell.parse s with
       | some (.int n) => some (.int n)
@@ -37,7 +43,10 @@ def timeOf : Sexp → Option Int
 /-- `(bump <op> <args>)` -/
 def handle1 (op : String) (args : List Sexp) : Option String := do
   match op, args with
-  | "bump", t :: bs =>
+  -- `bumpas kind t bs…`: the start handed over as another python object denoting the same instant (`date`, `ts` = pd.Timestamp,
+  -- `np` / `npD` = np.datetime64[us] / [D], `iso` / `isod` = ISO text, `ymd` = yyyymmdd int): `dt_bump` begins with
+  -- `t if isinstance(t, datetime) else dt(t)` (_dates.py:379); that `dt` of each spelling is the instant is C04.
+  | "bump", t :: bs | "bumpas", _ :: t :: bs =>
       let t ← timeOf t
       let bs ← bs.mapM argOf
       pure (reply (dtBump t bs))
